@@ -6,10 +6,14 @@ def callee_name(t):
     return (t.get("callee") or "").rsplit("::", 1)[-1]
 
 
-def calls_to(prog, fn, target_fn=None, callee=None, pred=None):
-    """(block, term) of call sites in fn resolving to target_fn (Fn) or with callee path == callee."""
+def calls_to(prog, fn, target_fn=None, callee=None, pred=None, with_asserts=False):
+    """(block, term) of call sites in fn resolving to target_fn (Fn) or with callee path == callee.
+    Calls made only to evaluate a `debug_assert!` (absent from release builds) are not listed unless asked for."""
     out = []
+    skip = set() if with_asserts else assert_only_blocks(fn)
     for b, t in fn.calls():
+        if b in skip:
+            continue
         if target_fn is not None:
             tg, _ = prog.targets(t, fn)
             if not any(x.id == target_fn.id for x in tg):
@@ -205,6 +209,15 @@ def zero_splits(prog, fn, operand_pred):
         if xs and operand_pred(xs):
             out.append({"block": sw["block"], "cond": sw["cond"], "true": sw["true"] if zero_on_true else sw["false"],
                         "false": sw["false"] if zero_on_true else sw["true"]})
+    # `match x.as_value() { 0 => .., _ => .. }`
+    for b, blk in enumerate(fn.blocks):
+        t = blk["term"]
+        if blk["cleanup"] or not t or t["t"] != "switch" or t["dty"] in ("bool", "isize") or t["otherwise"] is None:
+            continue
+        if len(t["targets"]) == 1 and t["targets"][0][0] == "0" and t["discr"].get("k") in ("cp", "mv"):
+            xs = value_origins(prog, fn, t["discr"], b)
+            if xs and operand_pred(xs):
+                out.append({"block": b, "cond": [], "true": t["targets"][0][1], "false": t["otherwise"]})
     return out
 
 
@@ -747,6 +760,8 @@ def stored_value_sources(prog, fn, stop_module, depth=0, op=None, at=None):
         if o.kind == "agg" and o.data.get("variant") in ("Ok",) and o.data.get("ops"):
             out |= stored_value_sources(prog, fn, stop_module, depth + 1, op=o.data["ops"][0], at=o.block)
             continue
+        if o.kind == "agg" and o.data.get("adt") == "core::result::Result" and o.data.get("variant") == "Err":
+            continue        # the error side of a desugared combinator: not a source of the Ok value
         if o.kind == "call":
             if [p_ for p_ in o.proj if p_ not in ("?ok",)]:
                 out.add("other:projection")
@@ -845,4 +860,47 @@ def variant_entries(prog, fn, src_pred, variant, discr=None):
             x = origins(prog, fn, o.data["args"][0], at=o.block)
             if x and src_pred(x):
                 out.append(sw["true"] if nm == "is_eq" else sw["false"])
+    return out
+
+
+def assert_only_blocks(fn):
+    """Blocks that exist only to evaluate a `debug_assert!` (they vanish from release builds): the region between the
+    `if cfg!(debug_assertions)` test and its join."""
+    cache = getattr(fn, "_assert_only", None)
+    if cache is not None:
+        return cache
+    out = set()
+    for b, blk in enumerate(fn.blocks):
+        t = blk["term"]
+        if blk["cleanup"] or not t or t["t"] != "switch" or t["dty"] != "bool":
+            continue
+        d = t["discr"]
+        src = None
+        if d.get("k") == "c":
+            src = const_val(d)
+        elif d.get("k") in ("cp", "mv") and not d["pl"]["p"]:
+            for st in reversed(blk["stmts"]):
+                if st["s"] == "assign" and st["lhs"]["l"] == d["pl"]["l"] and not st["lhs"]["p"] and st["rhs"]["rv"] == "use":
+                    src = const_val(st["rhs"]["a"])
+                    break
+        if src is not True:
+            continue
+        tg = {v: bb for v, bb in t["targets"]}
+        f_t = tg.get("0")
+        t_t = t["otherwise"] if "0" in tg else tg.get("1")
+        if f_t is None or t_t is None:
+            continue
+        j = f_t
+        for _ in range(6):
+            jb = fn.blocks[j]
+            if jb["term"] and jb["term"]["t"] == "goto" and all(st["s"] != "assign" or (st["rhs"]["rv"] == "use" and st["rhs"]["a"].get("k") == "c") for st in jb["stmts"]):
+                j = jb["term"]["target"]
+            else:
+                break
+        region = fn.reachable(t_t, avoid={j})
+        has_assert_panic = any(fn.blocks[x]["term"] and fn.blocks[x]["term"]["t"] == "call" and fn.blocks[x]["term"]["target"] is None
+                               and set(macro_names(fn.blocks[x]["term"])) & {"debug_assert", "debug_assert_eq", "debug_assert_ne"} for x in region)
+        if has_assert_panic:
+            out |= region
+    fn._assert_only = out
     return out
